@@ -344,7 +344,7 @@ func cmdCheck(args []string) int {
 			replays++
 			// schedule-dependent counterexamples: the native run cannot be forced onto the model's
 			// schedule; try a few times
-			for try := 0; try < 3 && status == "not-reproduced" && len(f.Sched) > 2; try++ {
+			for try := 0; try < 3 && status == "not-reproduced"; try++ { // native nondeterminism: schedules, map iteration order
 				status, detail = nativeReplay(rp, f.Kind)
 			}
 			if status == "not-reproduced" && len(f.Sched) > 2 {
